@@ -149,8 +149,9 @@ def build_counts(c):
 def build_sumw(c):
     from yaw.correlation.paircounts import PatchedSumWeights
 
+    dt = c.get("w_dtype", "f8")  # sums of weights of unweighted samples are object counts: integer arrays are natural input
     return PatchedSumWeights(
-        build_binning(c["binning"]), np.array(c["w1"], dtype=float), np.array(c["w2"], dtype=float), auto=c["auto"]
+        build_binning(c["binning"]), np.array(c["w1"], dtype=float).astype(dt), np.array(c["w2"], dtype=float).astype(dt), auto=c["auto"]
     )
 
 
@@ -413,6 +414,43 @@ def scene_case(draw, theta_max, edges, ncat, *, min_patches=1, max_patches=5, ma
 
 
 @st.composite
+def allsky_scene(draw, theta_max, edges, ncat, need_z=()):
+    """catalogs spread over the whole sphere on 2-6 far-apart centres (patch radii of 90 degrees
+    and more): per catalog one object next to every centre plus objects anywhere, most of them
+    with a companion within the largest scale; same layout as scene_case's result"""
+    sphere_point = st.tuples(floats(0.0, 2 * math.pi - 1e-9), floats(-1.0, 1.0).map(math.asin))
+    layout = draw(st.sampled_from(["poles", "poles", "random"]))
+    if layout == "poles":
+        centers = [(0.0, math.pi / 2), (0.0, -math.pi / 2)]
+    else:
+        centers = draw(st.lists(sphere_point, min_size=2, max_size=6, unique=True))
+    K = len(centers)
+
+    def offset(p, sep, bearing):
+        ra, dec = p
+        sd = max(-1.0, min(1.0, math.sin(dec) * math.cos(sep) + math.cos(dec) * math.sin(sep) * math.cos(bearing)))
+        y = math.sin(bearing) * math.sin(sep) * math.cos(dec)
+        x = math.cos(sep) - math.sin(dec) * sd
+        ra2 = (ra + math.atan2(y, x)) % (2 * math.pi)
+        return (0.0 if ra2 >= 2 * math.pi else ra2, math.asin(sd))
+
+    cats = []
+    for c in range(ncat):
+        pts = [offset(cen, 0.01, draw(floats(0.0, 2 * math.pi))) for cen in centers]
+        for _ in range(draw(st.integers(2, 10))):
+            # anywhere, or next to the equator (for polar centres: the patch boundary) within the largest scale
+            p = draw(st.one_of(sphere_point, st.tuples(floats(0.0, 2 * math.pi - 1e-9), floats(-0.6, 0.6).map(lambda f: f * theta_max))))
+            pts.append(p)
+            if draw(st.booleans()):
+                pts.append(offset(p, theta_max * draw(floats(0.05, 1.3)), draw(floats(0.0, 2 * math.pi))))
+        n = len(pts)
+        w = draw(st.one_of(st.none(), st.lists(st.sampled_from([1.0, 2.0, 0.5, 0.25, 3.0]), min_size=n, max_size=n)))
+        z = draw(redshift_values(n, edges)) if c in need_z else None
+        cats.append({"ra": [float(p[0]) for p in pts], "dec": [float(p[1]) for p in pts], "w": w, "z": z})
+    return {"base": [0.0, 0.0], "spacing": math.pi, "centers": [list(map(float, c)) for c in centers], "cats": cats}
+
+
+@st.composite
 def lattice_scene(draw, K, extra=20, ncat=1, edges=None, need_z=(), theta_max=None):
     """catalogs on K (hundreds of) patch centres laid out on a tangent-plane lattice: per
     catalog one object next to every centre plus up to ``extra`` more; same layout as
@@ -438,6 +476,20 @@ def lattice_scene(draw, K, extra=20, ncat=1, edges=None, need_z=(), theta_max=No
             z = [pool[i] for i in rng.integers(0, 8, size=n)]
         cats.append({"ra": list(map(float, ra)), "dec": list(map(float, dec)), "w": w, "z": z})
     return {"base": list(base), "spacing": spacing, "centers": np.column_stack([cra, cdec]).tolist(), "cats": cats}
+
+
+# overall magnitude of the sums of weights: weights in physical units (fluxes of 1e-17) or
+# normalised to unit sum are as legitimate as weights of order one; powers of two keep the
+# exactly representable entries exact
+WEIGHT_SCALES = [1.0, 1.0, 1.0, 1.0, 2.0**-56, 2.0**-30, 2.0**-14, 2.0**40]
+
+
+def scale_weights(c, f):
+    """multiply the sum-of-weights arrays of a normalised-counts case by f (in place)"""
+    if f != 1.0 and "w1" in c:
+        c["w1"] = (np.array(c["w1"], float) * f).tolist()
+        c["w2"] = (np.array(c["w2"], float) * f).tolist()
+    return c
 
 
 def expand_counts(c):
